@@ -199,7 +199,8 @@ def rule_header_bits(ctx):
     fn = ctx.program.func(f"{WSP}.sendFrame")
     roles = _assembly_names(ctx, fn)
     nm_b0, nm_b1 = roles.get("header0", "b0"), roles.get("header1", "b1")
-    blk = _between(fn, lambda s: _is_assign(s, nm_b0, 0), lambda s: _is_assign(s, nm_b1, 0))
+    # from the first binding of the first header octet up to the first binding of the second one (built step by step or as one expression)
+    blk = _between(fn, lambda s: _is_assign(s, nm_b0), lambda s: _is_assign(s, nm_b1))
     ctx.require(blk is not None, "sendFrame: b0 construction block not found")
     fin, rsv, opc = np.meshgrid(np.arange(2), np.arange(8), np.arange(16), indexing="ij")
     fin, rsv, opc = fin.ravel(), rsv.ravel(), opc.ravel()
